@@ -90,7 +90,19 @@ def spell_link():
     return [("link=inline", b'a [text](http://example.com/ "T") b\n\n'), ("link=reference", b'a [text][ref] b\n\n[ref]: http://example.com/ "T"\n\n'), ("link=reference-case", b'a [text][REF] b\n\n[ref]: http://example.com/ "T"\n\n'),
             ("link=implicit", b'a [text][] b\n\n[text]: http://example.com/ "T"\n\n'), ("link=shortcut", b'a [text] b\n\n[text]: http://example.com/ "T"\n\n'), ("link=reference-single-quote-title", b"a [text][ref] b\n\n[ref]: http://example.com/ 'T'\n\n"),
             ("link=reference-angle", b'a [text][ref] b\n\n[ref]: <http://example.com/> "T"\n\n')]
-KINDS = [("hardbreak", spell_hardbreak, False), ("codespan", spell_codespan, False), ("link", spell_link, False), ("para", spell_para, False), ("emph", spell_emph, False), ("atx1", lambda: spell_atx(1), False), ("atx3", lambda: spell_atx(3), False),
+def spell_table():
+    """the same 3x2 table with different cell padding, outer pipes and an empty middle cell; compared after trimming blanks inside cells"""
+    out = []
+    for pad, pn in ((b" ", "1"), (b"  ", "2"), (b"   ", "3"), (b"    ", "4"), (b"\t", "tab")):
+        for emp, en in ((b" ", "1"), (b"  ", "2"), (b"   ", "3"), (b"    ", "4"), (b"\t", "tab")):
+            for outer, on in ((1, "yes"), (0, "no")):
+                def row(cells):
+                    r = b"|".join(pad + c + pad if c else emp for c in cells)
+                    return (b"|" + r + b"|" if outer else r.strip(b" \t") if cells[0] and cells[-1] else b"|" + r + b"|") + b"\n"
+                t = row([b"h1", b"h2", b"h3"]) + b"|---|:-:|--:|\n" + row([b"x", b"", b"z"]) + row([b"a", b"b", b"c"]) + b"\n"
+                out.append(("pad=%s,empty=%s,outer=%s" % (pn, en, on), t))
+    return out
+KINDS = [("table", spell_table, True), ("hardbreak", spell_hardbreak, False), ("codespan", spell_codespan, False), ("link", spell_link, False), ("para", spell_para, False), ("emph", spell_emph, False), ("atx1", lambda: spell_atx(1), False), ("atx3", lambda: spell_atx(3), False),
          ("setext1", lambda: spell_setext(b"="), False), ("setext2", lambda: spell_setext(b"-"), False), ("bullets", spell_bullets, False), ("enum", spell_enum, False),
          ("hr", spell_hr, False), ("fence", spell_fence, True), ("quote", spell_quote, False), ("indented", spell_indented, False), ("reflink", spell_reflink, False)]
 CONTEXTS = [(b"", b""), (b"before text\n\n", b"after text\n\n"), (b"# Heading before\n\n", b"> quote after\n\n"), (b"* item before\n\n", b"    code after\n\n")]
@@ -109,7 +121,9 @@ def spelling_case():
         def render(s):
             doc = pre + s + post
             if crlf: doc = doc.replace(b"\n", b"\r\n")
-            return html(doc, ext).replace(b"\r", b"")
+            h = html(doc, ext).replace(b"\r", b"")
+            if kname == "table": h = re.sub(rb"[ \t]*(</?t[dh][^>]*>)[ \t]*", rb"\1", h)        # blanks at the edge of a cell are padding
+            return h
         canon_label, canon = spellings[0]; base = render(canon); canon_axes = axes_of(canon_label); by_label = {l: t for l, t in spellings}
         v = []; failing_single = set(); judged = 0
         order = sorted(spellings[1:], key=lambda s: sum(a != b for a, b in zip(axes_of(s[0]), canon_axes)))
@@ -132,6 +146,7 @@ def spelling_case():
                           dict(src=(pre + s + post).decode("latin-1"), canonical=(pre + ref_s + post).decode("latin-1"), mode=mname, crlf=crlf, got=out.decode("utf-8", "replace"), expected=ref.decode("utf-8", "replace"))))
         if crlf:
             lf = html(pre + canon + post, ext)
+            if kname == "table": lf = re.sub(rb"[ \t]*(</?t[dh][^>]*>)[ \t]*", rb"\1", lf)
             if lf != base:
                 v.append(("spelling:%s:crlf" % kname, "CRLF line ends change the rendering of %r" % (pre + canon + post),
                           dict(src=(pre + canon + post).replace(b"\n", b"\r\n").decode("latin-1"), mode=mname)))
